@@ -98,6 +98,11 @@ func (fr *Frame) builtin(site ssa.Instruction, b *ssa.Builtin, c *ssa.CallCommon
 				return []string{r}
 			}
 		}
+		if fr.parent == nil {
+			// the function under verification calls recover() itself, so it is meant to
+			// be deferred: verified on its own it may run on a normal or a panicking exit
+			return []string{vc.fresh("recovered", "Iface")}
+		}
 		return []string{zeroOf("Iface")}
 	case "print", "println":
 		return nil
